@@ -23,7 +23,7 @@ func registerC04() {
 			"every 29th position, thorough = all 2^15 patterns at every position; Decode (every fifth time with the unknown-item options and a logger) and CheckIntegrity must both return an error. Family headers: header sizes x protocol " +
 			"versions x profile versions x stored CRC {correct, 0, each single-bit error, PRNG} and every single-byte corruption of bytes 1-3, 8-13 of a correct 14-byte header, " +
 			"each inside an otherwise valid file with recomputed file CRC: CheckIntegrity(headerOnly), DecodeHeader, Decode and Header.CheckIntegrity - and DecodeHeaderAndFileID, DecodeChained and CheckIntegrity over the whole file, which read the header on their way - must all agree with the " +
-			"reference verdict. Family large-bursts: model streams of 5-120 KB and the device files up to 400 KB, each corrupted at 400 (quick) / 3000 (thorough) PRNG bit positions (concentrated around the decoder's 4096-byte buffer boundaries, record boundaries and the trailing CRC) with PRNG burst patterns of span <= 16. Family accepted: every output of a successful Encode of an API-built File (into a plain buffer, a file on disk, a bytes.Buffer already holding data, a bufio.Writer, a seekable in-memory writer; 12- and 14-byte headers) must pass CheckIntegrity; streams Decode accepts (model, device, Encode output, and model streams padded to data sizes at and around multiples of the 4096-byte read buffer) must pass CheckIntegrity. A case is one corrupted file; distinct by construction",
+			"reference verdict. Family large-bursts: model streams of 5-120 KB and the device files up to 400 KB, each corrupted at 400 (quick) / 3000 (thorough) PRNG bit positions (concentrated around the decoder's 4096-byte buffer boundaries, record boundaries and the trailing CRC) with PRNG burst patterns of span <= 16. Family accepted: every output of a successful Encode of an API-built File (into a plain buffer, a file on disk, a bytes.Buffer already holding data, a bufio.Writer, a seekable in-memory writer; 12- and 14-byte headers) must pass CheckIntegrity; streams Decode accepts (model, device, Encode output, model streams padded to data sizes at and around multiples of the 4096-byte read buffer, and streams whose header lies about the data size - 0, 1, true +-1 ... - with and without trailer) must pass CheckIntegrity. A case is one corrupted file; distinct by construction",
 		Assume:        []string{"'contiguous bits' are contiguous in the order the reflected CRC consumes them (LSB first); any error counts as detection"},
 		MinNontrivial: 20000,
 		Families: []lib.Family{
@@ -355,6 +355,48 @@ func c04HeaderBytes(c *lib.Ctx, idx uint64) {
 func c04Accepted(c *lib.Ctx, idx uint64) {
 	rng := lib.NewRand("C04.accepted", idx)
 	var b []byte
+	if idx%16 == 13 {
+		// Streams whose header lies about the data size (0 as an interrupted recording leaves
+		// it, 1, the true size +-1, +2, twice the size), with the trailing CRC absent, left as
+		// it was, or recomputed: whatever of these Decode accepts must pass CheckIntegrity.
+		p := c07Plan(rng, idx|1)
+		full := p.Bytes()
+		hs := int(full[0])
+		n := len(full) - hs - 2
+		v := []int{0, 0, 1, n - 1, n + 1, n + 2, 2 * n, n - 2}[int(idx/16)%8]
+		if v < 0 {
+			v = 0
+		}
+		x := append([]byte{}, full...)
+		x[4], x[5], x[6], x[7] = byte(v), byte(v>>8), byte(v>>16), byte(v>>24)
+		if hs == 14 && (x[12] != 0 || x[13] != 0) {
+			hc := ref.CRC(x[:12])
+			x[12], x[13] = byte(hc), byte(hc>>8)
+		}
+		switch int(idx/128) % 3 {
+		case 0:
+			x = x[:len(x)-2] // no trailer
+		case 1:
+			fc := ref.CRC(x[:len(x)-2])
+			x[len(x)-2], x[len(x)-1] = byte(fc), byte(fc>>8)
+		}
+		c.SetInflight(x)
+		_, derr, o := lib.GuardedDecode(x)
+		c.Eval()
+		c.Count("data_size_lies_tried", 1)
+		if o.Panicked || o.Hang || derr != nil {
+			return
+		}
+		var ierr error
+		io := lib.Guard(func() { ierr = fit.CheckIntegrity(bytes.NewReader(x), false) })
+		c.Eval()
+		if io.Panicked || ierr != nil {
+			c.Violation(x, "Decode accepts a stream whose header gives data size %d (%d record bytes follow) but CheckIntegrity rejects it: %v %s", v, n, ierr, io.Panic)
+			return
+		}
+		c.Count("data_size_lies_accepted_by_both", 1)
+		return
+	}
 	switch idx % 4 {
 	case 3:
 		// data sizes at and around multiples of the decoder's 4096-byte buffer
